@@ -3,35 +3,43 @@
    encryptor (arbitrary function). All statements are for every op list, i.e. every request stream,
    every choke decision sequence and every segmentation of the writes. *)
 From Coq Require Import List NArith Bool.
-From LTV.C05 Require Import ParamsGen Model Proofs ProofsB ProofsC ProofsD Examples.
+From LTV.C05 Require Import Model Proofs ProofsB ProofsC ProofsD Examples.
 Import ListNotations.
 Local Open Scope N_scope.
 
-Theorem params_ok_now : Proofs.params_ok = true.
-Proof. exact Proofs.params_ok_now. Qed.
+(* The policy P (queue limit, request length limit, what happens to unservable requests) is what the
+   property leaves open; it is PROBED on the compiled code at run time. All theorems hold for every P;
+   those that speak about the 2^17 protocol limit need the side condition params_ok P, which the check
+   evaluates on the probed values with the extracted params_ok. *)
+Theorem params_ok_now : Proofs.params_ok (mkPolicy 2048 131072 false false) = true.
+Proof. exact Proofs.params_ok_default. Qed.
 Print Assumptions params_ok_now.
 
+Theorem params_ok_spec : forall P : policy, Proofs.params_ok P = true <-> lenlimit P <= 131072.
+Proof. intro P. unfold Proofs.params_ok. apply N.leb_le. Qed.
+Print Assumptions params_ok_spec.
+
 (* piece_bytes_exact, plain and RC4 at once *)
-Theorem piece_bytes_exact : forall (L : layout) (content : N -> N -> N) (enc : bool) (ks : N -> N) (ops : list op),
-  let s := run L content enc ks ops in
+Theorem piece_bytes_exact : forall (L : layout) (content : N -> N -> N) (enc : bool) (ks : N -> N) (P : policy) (ops : list op),
+  let s := run L content enc ks P ops in
   exists P1, wire content (msgs s) = P1 ++ pend_payload content s /\
              stream s ++ obuf s ++ ebuf s = crypt enc ks 0 P1 /\
              kpos s = len P1.
 Proof. exact Proofs.piece_bytes_exact. Qed.
 Print Assumptions piece_bytes_exact.
 
-Theorem piece_bytes_exact_plain : forall (L : layout) (content : N -> N -> N) (enc : bool) (ks : N -> N) (ops : list op),
+Theorem piece_bytes_exact_plain : forall (L : layout) (content : N -> N -> N) (enc : bool) (ks : N -> N) (P : policy) (ops : list op),
   enc = false ->
-  let s := run L content enc ks ops in
+  let s := run L content enc ks P ops in
   stream s ++ obuf s ++ pend_payload content s = wire content (msgs s).
 Proof. exact Proofs.piece_bytes_exact_plain. Qed.
 Print Assumptions piece_bytes_exact_plain.
 
 (* RC4: the bytes on the wire, concatenated across all WriteReady segments, partial writes and
    encrypt-buffer refills, are the plaintext messages XOR ks at consecutive positions 0,1,2,... *)
-Theorem piece_bytes_exact_rc4 : forall (L : layout) (content : N -> N -> N) (enc : bool) (ks : N -> N) (ops : list op),
-  enc = true -> ws (run L content enc ks ops) = Idle ->
-  stream (run L content enc ks ops) = xor_from ks 0 (wire content (msgs (run L content enc ks ops))).
+Theorem piece_bytes_exact_rc4 : forall (L : layout) (content : N -> N -> N) (enc : bool) (ks : N -> N) (P : policy) (ops : list op),
+  enc = true -> ws (run L content enc ks P ops) = Idle -> obuf (run L content enc ks P ops) = [] ->
+  stream (run L content enc ks P ops) = xor_from ks 0 (wire content (msgs (run L content enc ks P ops))).
 Proof. exact Proofs.piece_bytes_exact_rc4. Qed.
 Print Assumptions piece_bytes_exact_rc4.
 
@@ -41,106 +49,108 @@ Theorem xor_from_nth : forall (ks : N -> N) (l : list N) (p : N) (j : nat), (j <
 Proof. exact (Proofs.xor_from_nth (fun _ _ => 0)). Qed.
 Print Assumptions xor_from_nth.
 
-Theorem piece_answers_request : forall (L : layout) (content : N -> N -> N) (enc : bool) (ks : N -> N) (ops : list op) (p : piece),
-  In (MPiece p) (msgs (run L content enc ks ops)) ->
+Theorem piece_answers_request : forall (L : layout) (content : N -> N -> N) (enc : bool) (ks : N -> N) (P : policy) (ops : list op) (p : piece),
+  In (MPiece p) (msgs (run L content enc ks P ops)) ->
   exists o1 o2, ops = o1 ++ RecvRequest p :: o2 /\
-                choked (run L content enc ks o1) = false /\ closed (run L content enc ks o1) = false.
+                choked (run L content enc ks P o1) = false /\ closed (run L content enc ks P o1) = false.
 Proof. exact ProofsB.piece_answers_request. Qed.
 Print Assumptions piece_answers_request.
 
-Theorem piece_answers_request_from : forall (L : layout) (content : N -> N -> N) (enc : bool) (ks : N -> N)
+Theorem piece_answers_request_from : forall (L : layout) (content : N -> N -> N) (enc : bool) (ks : N -> N) (P : policy)
     (ops1 ops2 : list op) (p : piece),
-  In (MPiece p) (msgs (run L content enc ks (ops1 ++ ops2))) ->
-  In (MPiece p) (msgs (run L content enc ks ops1)) \/ In p (queue (run L content enc ks ops1)) \/
+  In (MPiece p) (msgs (run L content enc ks P (ops1 ++ ops2))) ->
+  In (MPiece p) (msgs (run L content enc ks P ops1)) \/ In p (queue (run L content enc ks P ops1)) \/
   (exists o1 o2, ops2 = o1 ++ RecvRequest p :: o2 /\
-                 choked (Proofs.run_from L content enc ks (run L content enc ks ops1) o1) = false /\
-                 closed (Proofs.run_from L content enc ks (run L content enc ks ops1) o1) = false).
+                 choked (Proofs.run_from L content enc ks P (run L content enc ks P ops1) o1) = false /\
+                 closed (Proofs.run_from L content enc ks P (run L content enc ks P ops1) o1) = false).
 Proof. exact ProofsB.piece_answers_request_from. Qed.
 Print Assumptions piece_answers_request_from.
 
-Theorem never_unverified : forall (L : layout) (content : N -> N -> N) (enc : bool) (ks : N -> N) (ops : list op) (p : piece),
-  In (MPiece p) (msgs (run L content enc ks ops)) -> l_completed L (p_index p) = true.
+Theorem never_unverified : forall (L : layout) (content : N -> N -> N) (enc : bool) (ks : N -> N) (P : policy) (ops : list op) (p : piece),
+  In (MPiece p) (msgs (run L content enc ks P ops)) -> l_completed L (p_index p) = true.
 Proof. exact Proofs.never_unverified. Qed.
 Print Assumptions never_unverified.
 
-Theorem never_out_of_range : forall (L : layout) (content : N -> N -> N) (enc : bool) (ks : N -> N) (ops : list op) (p : piece),
-  In (MPiece p) (msgs (run L content enc ks ops)) ->
-  p_index p < n_pieces L /\ 0 < p_len p /\ p_len p <= Params.c05_request_len_limit /\
+Theorem never_out_of_range : forall (L : layout) (content : N -> N -> N) (enc : bool) (ks : N -> N) (P : policy) (ops : list op) (p : piece),
+  Proofs.params_ok P = true -> In (MPiece p) (msgs (run L content enc ks P ops)) ->
+  p_index p < n_pieces L /\ 0 < p_len p /\ p_len p <= lenlimit P /\ p_len p <= 131072 /\
   p_off p + p_len p <= piece_size L (p_index p).
 Proof. exact Proofs.never_out_of_range. Qed.
 Print Assumptions never_out_of_range.
 
-Theorem length_limit : forall (L : layout) (content : N -> N -> N) (enc : bool) (ks : N -> N) (ops : list op),
-  N.of_nat (length (queue (run L content enc ks ops))) <= Params.c05_max_request_queue /\
-  NoDup (queue (run L content enc ks ops)) /\
-  (forall p, In p (queue (run L content enc ks ops)) -> p_len p <= Params.c05_request_len_limit).
+Theorem length_limit : forall (L : layout) (content : N -> N -> N) (enc : bool) (ks : N -> N) (P : policy) (ops : list op),
+  N.of_nat (length (queue (run L content enc ks P ops))) <= qlimit P /\
+  NoDup (queue (run L content enc ks P ops)) /\
+  (forall p, In p (queue (run L content enc ks P ops)) -> p_len p <= lenlimit P).
 Proof. exact Proofs.length_limit. Qed.
 Print Assumptions length_limit.
 
-Theorem cancel_effective : forall (L : layout) (content : N -> N -> N) (enc : bool) (ks : N -> N) (ops : list op) (p : piece),
-  closed (run L content enc ks ops) = false -> ~ In p (queue (run L content enc ks (ops ++ [RecvCancel p]))).
+Theorem cancel_effective : forall (L : layout) (content : N -> N -> N) (enc : bool) (ks : N -> N) (P : policy) (ops : list op) (p : piece),
+  closed (run L content enc ks P ops) = false -> ~ In p (queue (run L content enc ks P (ops ++ [RecvCancel p]))).
 Proof. exact Proofs.cancel_effective. Qed.
 Print Assumptions cancel_effective.
 
-Theorem choke_clears : forall (L : layout) (content : N -> N -> N) (enc : bool) (ks : N -> N) (ops : list op) (k : N),
-  let s := run L content enc ks ops in
-  let s' := step L content enc ks s (WriteReady k) in
+Theorem choke_clears : forall (L : layout) (content : N -> N -> N) (enc : bool) (ks : N -> N) (P : policy) (ops : list op) (k : N),
+  let s := run L content enc ks P ops in
+  let s' := step L content enc ks P s (WriteReady k) in
   exists m, msgs s' = m ++ msgs s /\
             (In (MChoke true) m -> queue s' = [] /\ exists m', m = MChoke true :: m').
 Proof. exact ProofsB.choke_clears. Qed.
 Print Assumptions choke_clears.
 
-Theorem request_ignored : forall (L : layout) (content : N -> N -> N) (enc : bool) (ks : N -> N) (s : st) (p : piece),
-  choked s = true \/ Params.c05_request_len_limit < p_len p \/
-  Params.c05_max_request_queue <= N.of_nat (length (queue s)) \/ In p (queue s) ->
-  step L content enc ks s (RecvRequest p) = s.
+Theorem request_ignored : forall (L : layout) (content : N -> N -> N) (enc : bool) (ks : N -> N) (P : policy) (s : st) (p : piece),
+  choked s = true \/ lenlimit P < p_len p \/
+  qlimit P <= N.of_nat (length (queue s)) \/ In p (queue s) \/ eager_drop L P p = true ->
+  step L content enc ks P s (RecvRequest p) = s.
 Proof. exact ProofsB.request_ignored. Qed.
 Print Assumptions request_ignored.
 
-Theorem bad_request_closes : forall (L : layout) (content : N -> N -> N) (enc : bool) (ks : N -> N) (s : st) (p : piece) (q : list piece),
+Theorem bad_request_closes : forall (L : layout) (content : N -> N -> N) (enc : bool) (ks : N -> N) (P : policy) (s : st) (p : piece) (q : list piece),
   ws s = Idle -> closed s = false -> choked s = false -> queue s = p :: q ->
-  is_valid_piece L p && l_completed L (p_index p) = false ->
-  forall k, let s' := step L content enc ks s (WriteReady k) in
+  (13 <=? room s - (if send_choked s && (5 <=? room s) then 5 else 0)) = true ->
+  servable L p = false ->
+  forall k, let s' := step L content enc ks P s (WriteReady k) in
   closed s' = true /\ out s' = out s /\ msgs s' = msgs s.
 Proof. exact ProofsB.bad_head_closes. Qed.
 Print Assumptions bad_request_closes.
 
-Theorem closed_forever : forall (L : layout) (content : N -> N -> N) (enc : bool) (ks : N -> N) (ops1 ops2 : list op),
-  closed (run L content enc ks ops1) = true -> run L content enc ks (ops1 ++ ops2) = run L content enc ks ops1.
+Theorem closed_forever : forall (L : layout) (content : N -> N -> N) (enc : bool) (ks : N -> N) (P : policy) (ops1 ops2 : list op),
+  closed (run L content enc ks P ops1) = true -> run L content enc ks P (ops1 ++ ops2) = run L content enc ks P ops1.
 Proof. exact ProofsB.closed_forever. Qed.
 Print Assumptions closed_forever.
 
 (* ---- the mapped upload chunk (m_up_chunk: one ChunkList reference) ---- *)
-Theorem chunk_released_when_closed : forall (L : layout) (content : N -> N -> N) (enc : bool) (ks : N -> N) (ops : list op),
-  closed (run L content enc ks ops) = true -> upc (run L content enc ks ops) = None.
+Theorem chunk_released_when_closed : forall (L : layout) (content : N -> N -> N) (enc : bool) (ks : N -> N) (P : policy) (ops : list op),
+  closed (run L content enc ks P ops) = true -> upc (run L content enc ks P ops) = None.
 Proof. exact ProofsC.chunk_released_when_closed. Qed.
 Print Assumptions chunk_released_when_closed.
 
-Theorem chunk_held_while_streaming : forall (L : layout) (content : N -> N -> N) (enc : bool) (ks : N -> N) (ops : list op),
-  ws (run L content enc ks ops) = WPiece ->
-  upc (run L content enc ks ops) = Some (p_index (cur (run L content enc ks ops))).
+Theorem chunk_held_while_streaming : forall (L : layout) (content : N -> N -> N) (enc : bool) (ks : N -> N) (P : policy) (ops : list op),
+  ws (run L content enc ks P ops) = WPiece ->
+  upc (run L content enc ks P ops) = Some (p_index (cur (run L content enc ks P ops))).
 Proof. exact ProofsC.chunk_held_while_streaming. Qed.
 Print Assumptions chunk_held_while_streaming.
 
-Theorem chunk_only_verified : forall (L : layout) (content : N -> N -> N) (enc : bool) (ks : N -> N) (ops : list op) (i : N),
-  upc (run L content enc ks ops) = Some i ->
+Theorem chunk_only_verified : forall (L : layout) (content : N -> N -> N) (enc : bool) (ks : N -> N) (P : policy) (ops : list op) (i : N),
+  Proofs.params_ok P = true -> upc (run L content enc ks P ops) = Some i ->
   l_completed L i = true /\ i < n_pieces L /\
-  exists p, In (MPiece p) (msgs (run L content enc ks ops)) /\ p_index p = i.
+  exists p, In (MPiece p) (msgs (run L content enc ks P ops)) /\ p_index p = i.
 Proof. exact ProofsC.chunk_only_verified. Qed.
 Print Assumptions chunk_only_verified.
 
 (* choked and told so (CHOKE written, or never unchoked): nothing mapped, nothing queued *)
-Theorem choked_holds_nothing : forall (L : layout) (content : N -> N -> N) (enc : bool) (ks : N -> N) (ops : list op),
-  choked (run L content enc ks ops) = true -> send_choked (run L content enc ks ops) = false ->
-  upc (run L content enc ks ops) = None /\ queue (run L content enc ks ops) = [].
+Theorem choked_holds_nothing : forall (L : layout) (content : N -> N -> N) (enc : bool) (ks : N -> N) (P : policy) (ops : list op),
+  choked (run L content enc ks P ops) = true -> send_choked (run L content enc ks P ops) = false ->
+  upc (run L content enc ks P ops) = None /\ queue (run L content enc ks P ops) = [].
 Proof. exact ProofsC.choked_holds_nothing. Qed.
 Print Assumptions choked_holds_nothing.
 
 (* ---- the fuel of ew is sufficient: on every reachable state extra fuel changes nothing, i.e. the
    out-of-fuel exit is never taken and no write call of the model stops early ---- *)
-Theorem fuel_sufficient : forall (L : layout) (content : N -> N -> N) (enc : bool) (ks : N -> N) (ops : list op) (k : N) (g : nat),
-  let s := run L content enc ks ops in
+Theorem fuel_sufficient : forall (L : layout) (content : N -> N -> N) (enc : bool) (ks : N -> N) (P : policy) (ops : list op) (k : N) (g : nat),
+  Proofs.params_ok P = true ->
+  let s := run L content enc ks P ops in
   closed s = false ->
   ew L content enc ks (ew_fuel s + g) k s = ew L content enc ks (ew_fuel s) k s.
-Proof. exact ProofsD.fuel_sufficient. Qed.
+Proof. exact (fun L content enc ks P ops k g HP => ProofsD.fuel_sufficient L content enc ks P HP ops k g). Qed.
 Print Assumptions fuel_sufficient.
